@@ -6,7 +6,11 @@ Fn(s) == [c \in 0..(Len(s) - 1) |-> s[c + 1]]
 AsCt(r) == [opp |-> Fn(r.opp), m |-> Fn(r.ctv), vc |-> r.vc, par |-> r.par]
 \* the attribute connectivity derived from the table (MeshAttributeCornerTable over a seam-free attribute): it is built, every corner of a
 \* non-degenerate face has an attribute vertex, and the vertices in use are below the reported count
-AttOK(r) == r.att_ok /\ r.att_inv = 0 /\ r.att_maxv < r.att_nv
+\* ... and, the attribute being seam-free, two corners share an attribute vertex exactly when they share a vertex of the table (evaluated pairwise on lists
+\* of up to 20 faces; on longer lists the driver's projection of the same relation, att_part_ok, stands in)
+SamePartition(r) == \A a \in 1..Len(r.attv) : \A b \in 1..Len(r.attv) :
+                       (r.attv[a] >= 0 /\ r.attv[b] >= 0 /\ r.ctv[a] >= 0 /\ r.ctv[b] >= 0) => ((r.attv[a] = r.attv[b]) <=> (r.ctv[a] = r.ctv[b]))
+AttOK(r) == r.att_ok /\ r.att_inv = 0 /\ r.att_maxv < r.att_nv /\ r.att_part_ok /\ (Len(r.attv) <= 60 => SamePartition(r))
 CheckA(r) == r.e = "CT" => (r.ok /\ Len(r.opp) = Len(r.f) /\ Len(r.ctv) = Len(r.f) /\ CornerTableOK(r.f, AsCt(r)) /\ AttOK(r))
 CheckB(r) == (r.e = "CT" /\ r.ok /\ Len(r.f) <= 36) =>
                 LET b == Create(r.f) IN
